@@ -119,3 +119,79 @@ pub mod instructions {
         });
     }
 }
+
+/// Depth bookkeeping of instruction-stream evaluations.
+///
+/// Every activation of the VM's evaluation loop records, at entry and at its
+/// normal exit, the depth of the frame stack, the depth of the capture stack
+/// of the output, the auto-escape mode and the length of the activation's
+/// auto-escape stack.  Activations that do not leave these as they found them
+/// are logged in a thread-local that can be drained with [`take_mismatches`].
+pub mod balance {
+    use std::cell::{Cell, RefCell};
+
+    use crate::utils::AutoEscape;
+
+    /// The depths observed at one end of an activation.
+    #[derive(Debug, Clone, PartialEq, Eq)]
+    pub struct Depths {
+        /// Number of frames on the context stack.
+        pub frames: usize,
+        /// Number of entries on the capture stack of the output.
+        pub captures: usize,
+        /// The auto-escape mode.
+        pub auto_escape: AutoEscape,
+        /// Number of saved auto-escape modes of the activation.
+        pub auto_escape_stack: usize,
+    }
+
+    /// An activation that did not restore its entry depths.
+    #[derive(Debug, Clone)]
+    pub struct Mismatch {
+        /// Name of the instruction stream at entry.
+        pub name: String,
+        /// The program counter the activation started at.
+        pub entry_pc: u32,
+        /// Depths at entry.
+        pub entry: Depths,
+        /// Depths at the normal exit.
+        pub exit: Depths,
+    }
+
+    thread_local! {
+        static MISMATCHES: RefCell<Vec<Mismatch>> = const { RefCell::new(Vec::new()) };
+        static ACTIVATIONS: Cell<u64> = const { Cell::new(0) };
+        static NORMAL_EXITS: Cell<u64> = const { Cell::new(0) };
+    }
+
+    pub(crate) fn enter() {
+        ACTIVATIONS.with(|x| x.set(x.get() + 1));
+    }
+
+    pub(crate) fn exit(name: &str, entry_pc: u32, entry: &Depths, exit: Depths) {
+        NORMAL_EXITS.with(|x| x.set(x.get() + 1));
+        if *entry != exit {
+            MISMATCHES.with(|x| {
+                x.borrow_mut().push(Mismatch {
+                    name: name.to_string(),
+                    entry_pc,
+                    entry: entry.clone(),
+                    exit,
+                })
+            });
+        }
+    }
+
+    /// Returns and clears the mismatches logged on this thread.
+    pub fn take_mismatches() -> Vec<Mismatch> {
+        MISMATCHES.with(|x| std::mem::take(&mut *x.borrow_mut()))
+    }
+
+    /// Returns and resets the (started, normally finished) activation counters of this thread.
+    pub fn take_counters() -> (u64, u64) {
+        (
+            ACTIVATIONS.with(|x| x.replace(0)),
+            NORMAL_EXITS.with(|x| x.replace(0)),
+        )
+    }
+}
